@@ -87,6 +87,11 @@ VP_HARNESS(h_dup_blocks)
 #ifdef VP_CBMC
   VP_CHECK(__CPROVER_OBJECT_SIZE(npu->infos.array) >= npu->infos.allocated * sizeof(struct hwloc_info_s) && npu->infos.allocated >= npu->infos.count, "dup: the copied info array really has the capacity it claims (later additions stay in bounds)");
 #endif
+  /* the copy is safely modifiable: pairs can be added up to the capacity it claims without leaving the block (the original
+   * array is half full, so allocated > count) */
+  { unsigned room = npu->infos.allocated - npu->infos.count; VP_CHECK(room == 6, "dup: the copy claims the capacity of the original");
+    for (unsigned i = 0; i < 6; i++) VP_CHECK(hwloc__add_info(&npu->infos, "k", "v") == 1, "dup: adding a pair to the copy succeeds");
+    VP_CHECK(npu->infos.count == 8 && npu->infos.array[7].name[0] == 'k' && opu->infos.count == 2, "dup: six more pairs fit in the copied array"); }
   /* independence: mutating the copy leaves the original alone, and vice versa */
   hwloc_bitmap_clr(npu->cpuset, 0); npu->infos.array[0].value[0] = 'x'; npu->name[0] = 'Z' == nm[0] ? 'Y' : 'Z'; hwloc_bitmap_clr(n->allowed_cpuset, 5);
   VP_CHECK(vp_w(opu->cpuset) == 1 && opu->infos.array[0].value[0] == '1' && opu->name[0] == nm[0] && vp_w(t->allowed_cpuset) == 0x27, "dup: no mutable storage is shared (copy -> original)");
